@@ -1,27 +1,35 @@
 #!/usr/bin/env python3
 """Runs checks against the seeded changes in /verif/seeded/<id>/patch.diff.
 
-usage: tools/seeded_matrix.py [--tier quick] [--only ID ...]
+usage: tools/seeded_matrix.py [--tier quick] [--scratch] [--only ID ...]
 For every seeded change: git -C /repo apply <patch>, run the quick (or given)
 tier of the checks named in its meta.json ("properties"), undo the change
 (git -C /repo checkout -- .), and record the outcome in meta.json under
 "last_run" and in seeded/MATRIX.md.
+With --scratch the patch is applied in a throw-away git worktree of /repo
+(under /tmp, removed afterwards) and the checks are pointed at it with
+VERIF_REPO, so /repo itself stays untouched (for use while a sweep is reading
+/repo); evidence files are still rewritten, re-run the checks on /repo
+afterwards.
 """
-import json, os, subprocess, sys, time
+import json, os, re, subprocess, sys, time
 ROOT = "/verif"
 tier = "quick"
+scratch = False
 only = []
 args = sys.argv[1:]
 while args:
     a = args.pop(0)
     if a == "--tier":
         tier = args.pop(0)
+    elif a == "--scratch":
+        scratch = True
     elif a == "--only":
         only = args
         args = []
 def sh(cmd, **kw):
     return subprocess.run(cmd, shell=True, stdout=subprocess.PIPE, stderr=subprocess.STDOUT, text=True, **kw)
-if sh("git -C /repo diff --quiet").returncode != 0:
+if not scratch and sh("git -C /repo diff --quiet").returncode != 0:
     print("/repo has uncommitted changes"); sys.exit(3)
 rows = []
 for sid in sorted(os.listdir(os.path.join(ROOT, "seeded"))):
@@ -31,20 +39,35 @@ for sid in sorted(os.listdir(os.path.join(ROOT, "seeded"))):
         continue
     mf = os.path.join(d, "meta.json")
     meta = json.load(open(mf)) if os.path.exists(mf) else {"id": sid, "properties": []}
-    if sh("git -C /repo apply --check " + pf).returncode != 0:
+    repo = "/repo"
+    envp = ""
+    if scratch:
+        repo = "/tmp/sm-" + sid
+        sh("git -C /repo worktree remove --force " + repo)
+        if sh("git -C /repo worktree add -q --detach %s HEAD" % repo).returncode != 0:
+            rows.append((sid, "WORKTREE FAILED", "")); continue
+        envp = "VERIF_REPO=%s " % repo
+    if sh("git -C %s apply --check %s" % (repo, pf)).returncode != 0:
         rows.append((sid, "PATCH DOES NOT APPLY", ""))
+        print(rows[-1], flush=True)
+        if scratch:
+            sh("git -C /repo worktree remove --force " + repo)
         continue
-    sh("git -C /repo apply " + pf)
+    sh("git -C %s apply %s" % (repo, pf))
     res = {}
     try:
         for prop in meta.get("properties", []):
             t0 = time.time()
-            p = sh("cd /verif && ./check %s %s" % (prop, tier))
+            p = sh("cd /verif && %s./check %s %s" % (envp, prop, tier))
             lines = [l for l in p.stdout.splitlines() if l.startswith(("VIOLATION", "KNOWN-FINDING", "INCONCLUSIVE", "BUILD-FAILED"))]
             sigs = sorted(set(l.split("replay=")[1].split("/")[-1].rsplit("-", 1)[0] for l in lines if l.startswith("VIOLATION")))
             res[prop] = {"exit": p.returncode, "violation_files": sigs[:6], "wall_s": round(time.time() - t0, 1), "summary": p.stdout.strip().splitlines()[-1] if p.stdout.strip() else ""}
     finally:
-        sh("git -C /repo checkout -- . && git -C /repo clean -fdq")
+        if scratch:
+            sh("git -C /repo worktree remove --force " + repo)
+            sh("rm -rf /verif/.bin/alt_tmp_sm_" + re.sub(r"[^A-Za-z0-9]+", "_", sid))
+        else:
+            sh("git -C /repo checkout -- . && git -C /repo clean -fdq")
     meta["last_run"] = {"tier": tier, "seed": int(os.environ.get("VERIF_SEED", "1")), "results": res}
     meta["detected"] = any(v["exit"] == 1 for v in res.values())
     json.dump(meta, open(mf, "w"), indent=1)
